@@ -11,6 +11,7 @@ from props.progcases import ProgramSpec
 
 PID = 'C01'
 TIE_MODULES = ['DiffxVerif.Tie.Sections']
+NEEDS = ['sections', 'options', 'text']
 ASSUMPTIONS = [
     'CPython codecs and json are environment; theorems take the codec round-trip / homomorphism laws as hypotheses; laws are tested per codec by C15',
     'expected records come from harness/specdoc.py (independent of pydiffx)',
@@ -36,7 +37,7 @@ class Spec(ProgramSpec):
         res, data = self.written(case)
         if data is None:
             return None
-        return 'read %d %s' % (int(self.tables['chunk']), common.enc_bytes(data))
+        return 'read %d %s' % ((int(self.tables['chunk']) or 96), common.enc_bytes(data))
 
     def impl(self, case):
         res, data = self.written(case)
